@@ -52,7 +52,8 @@ pub fn generate(run_seed: u64) -> Scenario {
     }
     let points = g.points(3);
     let n_ops = g.r.gen_range(1..=2);
-    let ops: Vec<Op> = (0..n_ops).map(|_| g.open_or_batch(polys.len(), points.len(), 0.5)).collect();
+    // a quarter of the operations are combination openings (check_combinations enforces bounds too)
+    let ops: Vec<Op> = (0..n_ops).map(|_| g.any_op(&polys, points.len(), 0.25, 0.5)).collect();
     let mut faults = vec![];
     for (oi, _) in ops.iter().enumerate() {
         for k in VERIFIER_KINDS {
